@@ -147,7 +147,7 @@ def source_is_archive(ctx, res):
                     case = {"flavour": fl, "mode": mode, "spelling": spelling, "position": position}
                     st.see(case, nontrivial=True)
                     res.count(f"source_is_archive:{mode}:{position}:{status}")
-                    changed = sorted(k for k in set(before) | set(after) if before.get(k) != after.get(k))
+                    changed = sorted(k for k in set(before) | set(after) if ((k in before) != (k in after) or before.get(k) != after.get(k)))
                     if status == "ok0" or changed:
                         res.violate("source_is_archive", "a source that is the archive itself was overwritten (or the run claimed success)", case,
                                     {"status": status, "changed": changed}, {"clause": "sources_untouched", "mode": mode, "position": position})
@@ -162,9 +162,44 @@ def source_is_archive(ctx, res):
                             res.disagree("source_is_archive", case, {"status": mo["status"], "wrote": bool(mo["writes"])}, {"status": status, "changed": changed})
 
 
+def sources_untouched_with_into(ctx, res):
+    """create / add with --into D and, among the sources, the file that D/<archive> names (and the file <archive> names): whatever
+    the tool makes of --into for these actions (known finding K1 of C19), no action ever alters a source file — every source
+    keeps its bytes unless the run fails without writing anything at all (oracle only)"""
+    st = res.stream("sources_untouched_with_into")
+    for kind in ("k7", "fd", "sd"):
+        for mode in ("create", "add"):
+            if kind == "k7" and mode == "add":
+                continue
+            for which in ("under_into",):
+                for position in (0, 1, 2):
+                    d = ctx.fresh_dir()
+                    arc = "notes." + kind
+                    os.makedirs(os.path.join(d, "out"))
+                    open(os.path.join(d, "a.dat"), "wb").write(b"a" * 300)
+                    open(os.path.join(d, "b.bas"), "wb").write(b"10 REM\r")
+                    run1 = (lambda argv: T.tar(argv, cwd=d)) if kind == "k7" else (lambda argv: D.dar(kind, argv, cwd=d))
+                    # genuine archives at both places (for --add the one that is updated must exist)
+                    run1(["-c", arc, "a.dat"])
+                    shutil.copy(os.path.join(d, arc), os.path.join(d, "out", arc))
+                    srcs = ["a.dat", "b.bas"]
+                    srcs.insert(position, os.path.join("out", arc))
+                    before = P.tree(d)
+                    status, out = run1(["-c" if mode == "create" else "-r", "--into", "out", arc] + srcs)
+                    after = P.tree(d)
+                    case = {"kind": kind, "mode": mode, "sources": srcs, "into": "out"}
+                    st.see(case, nontrivial=True)
+                    st.unmodelled += 1
+                    res.count(f"sources_untouched_with_into:{kind}:{mode}:{status}")
+                    altered = [n for n in srcs if before.get(n) != after.get(n)]
+                    if altered:
+                        res.violate("sources_untouched_with_into", "a source file was altered", case, {"status": status, "altered": altered}, {"clause": "sources_untouched", "mode": mode})
+
+
 def run(ctx, res):
     self_member(ctx, res)
     source_is_archive(ctx, res)
+    sources_untouched_with_into(ctx, res)
     res.rule = ("source lists of C01/C02 x {run twice, quiet/verbose, cwd-relative / absolute / dotted-directory paths, target absent / "
                 "present with arbitrary old bytes}; archives x {list, extract} repeated; non-trivial = at least one file; distinct by case")
     rng = ctx.rng
@@ -207,7 +242,7 @@ def run(ctx, res):
             before = P.tree(d)
             status, out = create(kind, d, arc, srcs, lay == "verbose")
             after = P.tree(d)
-            changed = sorted(k for k in set(before) | set(after) if before.get(k) != after.get(k) and k != arc)
+            changed = sorted(k for k in set(before) | set(after) if ((k in before) != (k in after) or before.get(k) != after.get(k)) and k != arc)
             if changed:
                 res.violate("paired_create", "create altered a source file or created another file", dict(case, layout=lay), changed[:5], {"clause": "sources_untouched"})
             variants[lay] = (status, after.get(arc, (None,))[0])
@@ -242,6 +277,6 @@ def run(ctx, res):
                     res.violate("paired_create", "reading the same archive again gives another status or report", case,
                                 {"action": action, "first": seen[tuple(action)][0], "now": r[0]}, {"clause": "read_repeatable"})
         after = P.tree(d)
-        changed = sorted(k for k in set(before) | set(after) if before.get(k) != after.get(k) and not k.startswith("xout"))
+        changed = sorted(k for k in set(before) | set(after) if ((k in before) != (k in after) or before.get(k) != after.get(k)) and not k.startswith("xout"))
         if changed:
             res.violate("paired_create", "list/extract altered the archive or a source file", case, changed[:5], {"clause": "read_only"})
